@@ -7,7 +7,7 @@
 From Coq Require Import String List NArith ZArith Bool Lia.
 From IonV Require Import Base.Wire Base.Utf8 Bin.Bits Data.Ion Num.Float Bin.BinWriter Bin.BitStream Bin.BinReader
   Bin.SpecBin Bin.RoundTripBin Bin.BitEvalP Bin.ReaderTrace Bin.BinReaderInvP Bin.ReaderTraceP Bin.ReaderTopP
-  Bin.BinReaderTs Bin.BinReaderTsP.
+  Bin.ReaderLstP Bin.ReaderForestP Bin.BinReaderTs Bin.BinReaderTsP.
 Import ListNotations.
 Open Scope N_scope.
 
@@ -79,3 +79,70 @@ Example C01bin_ex_run :
   fst (traverse ts_ok_default (enc_forest c01_forest) false) = trace_of c01_forest /\
   ts_ok_default [128; 15; 208] = Ok tt /\ Forall not_lst_null c01_forest.
 Proof. split; [vm_compute; reflexivity|]. split; [vm_compute; reflexivity|repeat constructor]. Qed.
+
+(* ---- S4, hence every stage: ANY well-formed forest, local symbol table included --------------------------------------- *)
+(* The flagship.  Write vs with a fresh binary Writer (C04_binary_writer: the bytes are [enc_forest vs]: version
+   marker, the local symbol table when a non-system symbol text occurs, the values) and traverse the bytes with
+   the binary reader: the trace is exactly [trace_of vs] — every value with its type, field name, annotations and
+   content, symbols with the text AND the ID the writer assigned under the table the reader built from the stream.
+   [ts]: the timestamp acceptance test, total and accepting the timestamp bodies in vs (the data model carries a
+   timestamp as its raw body, so "the body is a legal timestamp" is a hypothesis on vs, not on the reader).
+   [not_lst_null]: the one known corner, $ion_symbol_table::null.struct at top level (C01bin_lst_null_is_swallowed). *)
+Theorem C01bin : forall ts vs,
+  (forall bs, ts bs <> Panic /\ ts bs <> OutOfFuel) -> wf_values vs -> Forall not_lst_null vs ->
+  (forall body, In body (flat_map ts_bodies vs) -> ts body = Ok tt) ->
+  N.of_nat (length (enc_forest vs)) < two63 ->
+  fst (traverse ts (enc_forest vs) false) = trace_of vs.
+Proof. exact traverse_forest. Qed.
+
+(* the instance the checks run: the timestamp reader of Num/Timestamp.v (repaired tree); its totality is proved
+   (C06bin_default_ts_total), what remains a hypothesis is that it accepts the bodies that occur in vs *)
+Theorem C01bin_default : forall vs, wf_values vs -> Forall not_lst_null vs ->
+  (forall body, In body (flat_map ts_bodies vs) -> ts_ok_default body = Ok tt) ->
+  N.of_nat (length (enc_forest vs)) < two63 ->
+  fst (traverse ts_ok_default (enc_forest vs) false) = trace_of vs.
+Proof. exact (fun vs => traverse_forest ts_ok_default vs ts_ok_default_total). Qed.
+
+(* the pieces *)
+(* the table the reader builds from  $ion_symbol_table::{symbols:[L]}  resolves every ID the writer assigned under L *)
+Theorem C01bin_local_table : forall L, 9 + N.of_nat (length L) < two63 -> forall t, known L t ->
+  sid L t < two63 /\ sid_ok (lst_tab L) (sid L t) = true /\ lst_find_by_id (lst_tab L) (sid L t) = Some t.
+Proof. exact lst_tab_ok. Qed.
+(* the raw item that is the table struct: readLocalSymbolTable through the reader's own Next returns "not a value"
+   with exactly that table installed-to-be, standing before what follows *)
+Theorem C01bin_reads_table : forall ts tot, tot < two63 -> forall strs fuel r rest an,
+  Forall (fun t => utf8_valid t = true) strs -> (length strs + 2 <= fuel)%nat ->
+  MID tot LSys r (enc [] (lst_struct strs) ++ rest) [] [] None an -> is_ion_symbol_table an = true ->
+  exists r7, r_next_raw ts (r_next_inner ts) fuel r = (rs_lst r7 (Some (lst_tab strs)), Ok false) /\
+             RS tot LSys r7 rest [] [] /\ r_field r7 = None /\ r_annots r7 = [].
+Proof. exact raw_lst. Qed.
+
+(* a forest with several local symbols, used as symbol value, annotation and field name (and a repeated one) *)
+Definition c01_local_forest : list value :=
+  [ VAnn [SymText [102; 111; 111]; SymText (s "name")]
+      (VStruct [(SymText [97], VInt (-300)); (SymText (s "symbols"), VSymbol (SymText [98; 97; 114]));
+                (SymText [102; 111; 111], VList [VSymbol (SymText [97]); VNull 7; VSexp []])]);
+    VSymbol (SymText []);
+    VList [VAnn [SymText [98; 97; 114]] (VTimestamp [128; 15; 208]); VString [104; 105]; VFloat canonical_nan64];
+    VAnn [SymText (s "$ion_symbol_table")] (VList [VBlob [1; 2; 3]]) ].
+Example C01bin_ex_local :
+  locals_of c01_local_forest = [[102; 111; 111]; [97]; [98; 97; 114]; []] /\
+  fst (traverse ts_ok_default (enc_forest c01_local_forest) false) = trace_of c01_local_forest /\
+  Forall not_lst_null c01_local_forest /\
+  (forall body, In body (flat_map ts_bodies c01_local_forest) -> ts_ok_default body = Ok tt).
+Proof.
+  split; [vm_compute; reflexivity|]. split; [vm_compute; reflexivity|]. split; [repeat constructor|].
+  intros body [<-|[]]. vm_compute. reflexivity.
+Qed.
+Example C01bin_ex_local_wf : wf_values c01_local_forest.
+Proof.
+  assert (Hs : forall t, utf8_valid t = true -> wf_sym (SymText t)) by (intros t H; exists t; auto).
+  repeat constructor; try discriminate; try (apply Hs; reflexivity); try reflexivity; try exact I;
+    try (vm_compute; intuition discriminate).
+Qed.
+
+Print Assumptions C01bin.
+Print Assumptions C01bin_default.
+Print Assumptions C01bin_local_table.
+Print Assumptions C01bin_reads_table.
+Print Assumptions C01bin_ex_local.
